@@ -315,7 +315,13 @@ pub fn gen_report(rng: &mut Rng, idx: usize) -> Case {
     let run = |w: &mut dyn FnMut(&AEv)| { for e in &evs { w(e); } };
     let s1 = Sink::default();
     let mut lt = writer::Libtest::<PW, _>::raw(s1.clone());
-    let lt_cli = writer::libtest::Cli::default();
+    // display options must not change any reported fact: `--show-output` attaches a stdout text to ok /
+    // ignored entries, `--report-time` an execution time
+    let lt_cli = writer::libtest::Cli {
+        show_output: idx != 0 && rng.chance(1, 2),
+        report_time: if idx != 0 && rng.chance(1, 3) { Some(writer::libtest::ReportTime::Plain) } else { None },
+        ..writer::libtest::Cli::default()
+    };
     run(&mut |e| block_on(lt.handle_event(cat.realize(e), &lt_cli)));
     let s2 = Sink::default();
     let mut js = writer::Json::raw(s2.clone());
